@@ -74,7 +74,7 @@ func (c *checkSchema) checkType(name string, typ schema.Type, ss map[string]sche
 			// they were read from, which for a property inherited through
 			// "allOf" is the file of another type: the error keeps its file
 			// and its position.
-			if documentError.Filename() == "" {
+			if !documentError.HasFile() {
 				documentError.SetFile(typ.RootFile())
 			}
 			documentError.SetIncorrectUserType(name)
